@@ -88,11 +88,15 @@ def enabled(cfg):
         if act == 'RxConnect':
             return s['eio'][a['t']] == 'open' and s['nextSid'] <= max_sid \
                 and a['t'] not in s['binbuf']
-        if act in ('RxDisconnect', 'RxEvent', 'RxAck'):
+        if act in ('RxDisconnect', 'RxEvent', 'RxAck', 'RxRaw'):
             return s['eio'][a['t']] == 'open' and a['t'] not in s['binbuf']
         if act == 'RxFrame':
-            return s['eio'][a['t']] == 'open' and (
-                a['kind'] != 'hdr' or a['t'] not in s['binbuf'])
+            if s['eio'][a['t']] != 'open':
+                return False
+            if a['kind'] == 'hdr':
+                return a['t'] not in s['binbuf']
+            return a['t'] not in s['binbuf'] or \
+                len(s['binbuf'][a['t']]['atts']) < 3
         if act == 'Emit':
             return a['cb'] == '' or all(
                 c['next'] <= max_ack for c in s['cb'].values())
@@ -157,8 +161,9 @@ CONFIGS['lifecycle_quick_ac'] = dict(CONFIGS['lifecycle_quick'],
 
 
 # ------------------------------------------------------------------- events
-EVS = ['e_none', 'e_v', 'e_z', 'e_list', 'e_dict', 'e_tup0', 'e_tup1',
-       'e_tup2', 'e_bin', 'e_tbin', 'e_unh']
+EVS = ['e_none', 'e_v', 'e_z', 'e_f', 'e_es', 'e_el', 'e_ed', 'e_h',
+       'e_list', 'e_dict', 'e_tup0', 'e_tup1', 'e_tup2', 'e_bin', 'e_tbin',
+       'e_unh']
 
 
 def events(cfg):
@@ -169,9 +174,10 @@ def events(cfg):
                 for id in cfg['ids']:
                     A.append(mk('RxEvent', t=t, ns=ns, id=id, ev=ev,
                                 args=['v1']))
-            for args in ([], ['d1', 'l1'], ['n1', 'z0', 'f1']):
-                A.append(mk('RxEvent', t=t, ns=ns, id=cfg['ids'][-1],
-                            ev='e_v', args=args))
+            for args in ([], ['d1', 'l1'], ['n1', 'z0', 'f1'], ['h1', 'es']):
+                for id in cfg['ids'][-2:]:
+                    A.append(mk('RxEvent', t=t, ns=ns, id=id, ev='e_v',
+                                args=args))
         for ns in cfg['ns_api']:
             for n in (1, 2):
                 A.append(mk('RxFrame', t=t, kind='hdr', ty='BINARY_EVENT',
@@ -188,9 +194,9 @@ for _ah in (False, True):
         CONFIGS['events_%s_%s' % ('bg' if _ah else 'inl', _hk)] = dict(
             _EV, async_handlers=_ah, hkind=_hk)
 CONFIGS['events_quick'] = dict(_EV, max_sid=2, ns_h=['/', '/a'],
-                               ns_all=['/', '/a'], ids=[-1, 7],
-                               evs=['e_none', 'e_v', 'e_tup2', 'e_bin',
-                                    'e_unh', 'e_raise'])
+                               ns_all=['/', '/a'], ids=[-1, 0, 7],
+                               evs=['e_none', 'e_v', 'e_z', 'e_el', 'e_h',
+                                    'e_tup2', 'e_bin', 'e_unh', 'e_raise'])
 CONFIGS['events_quick_bg'] = dict(CONFIGS['events_quick'],
                                   async_handlers=True, hkind='class')
 
@@ -283,3 +289,51 @@ CONFIGS['residue'] = dict(transports=['t1', 't2'], ns_h=['/', '/a'],
 CONFIGS['residue'] = dict(CONFIGS['residue'], plain_transports=['t2'])
 CONFIGS['residue_quick'] = dict(CONFIGS['residue'], transports=['t1'],
                                 max_sid=2)
+
+
+# ------------------------------------------------------------------ hostile
+def hostile(cfg):
+    from .srv import RAW_CLASS
+    A = base(cfg)
+    off = cfg['offender']
+    S = [sid(i) for i in range(1, cfg['max_sid'] + 1)]
+    # bystanders only behave; the offender also misbehaves
+    for t in cfg['transports']:
+        A.append(mk('RxEvent', t=t, ns='/', id=7, ev='e_v', args=['v1']))
+    for ns in cfg['ns_api']:
+        for s in S:
+            A.append(mk('Emit', ns=ns, toKind='one', to=[s], skipKind='none',
+                        skip=[], ev='msg', data='v1', cb='c1'))
+            A.append(mk('EnterRoom', sid=s, room='r1', ns=ns, live=True))
+            A.append(mk('SaveSession', sid=s, ns=ns, val='w_' + s))
+        A.append(mk('Emit', ns=ns, toKind='one', to=['r1'], skipKind='none',
+                    skip=[], ev='msg', data='v1', cb=''))
+    for name in sorted(RAW_CLASS):
+        if name in cfg.get('raw', RAW_CLASS):
+            A.append(mk('RxRaw', t=off, frame=name, **{'class': RAW_CLASS[name]}))
+    for ns in cfg['ns_all']:
+        for id in (1, 2, 999999999):
+            A.append(mk('RxAck', t=off, ns=ns, id=id, args=['v1']))
+        A.append(mk('RxEvent', t=off, ns=ns, id=999999999, ev='e_v',
+                    args=['v1']))
+    A.append(mk('RxEvent', t=off, ns='/x', id=7, ev='e_v', args=['v1']))
+    for n in (0, 2, 999999999):
+        A.append(mk('RxFrame', t=off, kind='hdr', ty='BINARY_EVENT', ns='/',
+                    id=-1, ev='e_v', n=n))
+    A.append(mk('RxFrame', t=off, kind='hdr', ty='BINARY_ACK', ns='/', id=1,
+                ev='', n=1))
+    A.append(mk('RxFrame', t=off, kind='att', b='b1'))
+    return A
+
+
+CONFIGS['hostile'] = dict(transports=['t1', 't2', 't3'], offender='t1',
+                          ns_h=['/', '/a'], ns_all=['/', '/a'],
+                          ns_api=['/', '/a'], max_sid=3, max_ack=2,
+                          alpha='hostile', dev=['D6'])
+CONFIGS['hostile_quick'] = dict(CONFIGS['hostile'], transports=['t1', 't2'],
+                                ns_api=['/'], max_sid=2, max_ack=1,
+                                raw=['empty', 'type9', 'connerr', 'badjson',
+                                     'dictpayload', 'emptylist', 'numpayload',
+                                     'longid', 'deepjson', 'bytes', 'count11',
+                                     'strpayload', 'intevent',
+                                     'evunknownns', 'ackunknownns'])
